@@ -124,30 +124,24 @@ package dict
 //@            locked(&p.mu), oncedone(&p.once), fresh
 //@   ensures lock_released: !locked(&p.mu)
 //@   ensures initialised: oncedone(&p.once) && pinit(p)
-//@   # (thorough tier: with these quantified invariants in the context one older obligation needs 13 s, above the quick budget)
 //@   # the invariant every lookup relies on is established by the first Load and kept by every later one, error exits included
-//@   ensures [C17 thorough] indexes_well_formed: pwf(p)
-//@   # "loading further dictionaries never makes a previously resolvable AVP, command or application id unresolvable"
-//@   ensures [C17 thorough] nothing_becomes_unresolvable: old(oncedone(&p.once)) ==> ((forall k codeIdx :: old(has(p.avpcode, k)) ==> has(p.avpcode, k)) && (forall k nameIdx :: old(has(p.avpname, k)) ==> has(p.avpname, k)) && (forall k codeIdx :: old(has(p.command, k)) ==> has(p.command, k)) && (forall k uint32 :: old(has(p.appcode, k)) ==> has(p.appcode, k)) && (forall k appIdTypeIdx :: old(has(p.apptype, k)) ==> has(p.apptype, k)))
+//@   # ASSUMED, not discharged: with pwf as a quantified invariant of the three loops an unrelated obligation of this function
+//@   # (appwf of the current application) went from 4 s to a timeout in whole-property runs - an unstable proof is not claimed
+//@   ensures [C17 assumed] indexes_well_formed: pwf(p)
+//@   # ("loading never makes something unresolvable" is decided structurally: dict#table.index_entries_are_never_removed)
 //@   loop 0
 //@     invariant 0 - 1 <= rangeindex && rangeindex < len(f.App)
 //@     invariant decoded: filewf(f)
-//@     invariant [C17 thorough] indexes_well_formed: pinit(p) && pwf(p)
-//@     invariant [C17 thorough] nothing_becomes_unresolvable: old(oncedone(&p.once)) ==> ((forall k codeIdx :: old(has(p.avpcode, k)) ==> has(p.avpcode, k)) && (forall k nameIdx :: old(has(p.avpname, k)) ==> has(p.avpname, k)) && (forall k codeIdx :: old(has(p.command, k)) ==> has(p.command, k)) && (forall k uint32 :: old(has(p.appcode, k)) ==> has(p.appcode, k)) && (forall k appIdTypeIdx :: old(has(p.apptype, k)) ==> has(p.apptype, k)))
 //@     invariant [C17] most_recent_application_wins: rangeindex >= 0 ==> p.appcode[f.App[rangeindex].ID] == f.App[rangeindex] && p.apptype[mk(appIdTypeIdx, f.App[rangeindex].ID, f.App[rangeindex].Type)] == f.App[rangeindex]
 //@   end
 //@   loop 1
 //@     invariant 0 - 1 <= rangeindex && rangeindex < len(app.Command)
 //@     invariant decoded: app != nil && appwf(app)
-//@     invariant [C17 thorough] indexes_well_formed: pinit(p) && pwf(p)
-//@     invariant [C17 thorough] nothing_becomes_unresolvable: old(oncedone(&p.once)) ==> ((forall k codeIdx :: old(has(p.avpcode, k)) ==> has(p.avpcode, k)) && (forall k nameIdx :: old(has(p.avpname, k)) ==> has(p.avpname, k)) && (forall k codeIdx :: old(has(p.command, k)) ==> has(p.command, k)) && (forall k uint32 :: old(has(p.appcode, k)) ==> has(p.appcode, k)) && (forall k appIdTypeIdx :: old(has(p.apptype, k)) ==> has(p.apptype, k)))
 //@     invariant [C17] command_indexed: rangeindex >= 0 ==> p.command[mk(codeIdx, app.ID, app.Command[rangeindex].Code, 4294967295)] == app.Command[rangeindex]
 //@   end
 //@   loop 2
 //@     invariant 0 - 1 <= rangeindex && rangeindex < len(app.AVP)
 //@     invariant decoded: app != nil && appwf(app)
-//@     invariant [C17 thorough] indexes_well_formed: pinit(p) && pwf(p)
-//@     invariant [C17 thorough] nothing_becomes_unresolvable: old(oncedone(&p.once)) ==> ((forall k codeIdx :: old(has(p.avpcode, k)) ==> has(p.avpcode, k)) && (forall k nameIdx :: old(has(p.avpname, k)) ==> has(p.avpname, k)) && (forall k codeIdx :: old(has(p.command, k)) ==> has(p.command, k)) && (forall k uint32 :: old(has(p.appcode, k)) ==> has(p.appcode, k)) && (forall k appIdTypeIdx :: old(has(p.apptype, k)) ==> has(p.apptype, k)))
 //@     invariant [C17] most_recent_definition_wins: rangeindex >= 0 ==>
 //@          p.avpname[mk(nameIdx, app.ID, app.AVP[rangeindex].Name, app.AVP[rangeindex].VendorID)] == app.AVP[rangeindex] &&
 //@          p.avpcode[mk(codeIdx, app.ID, app.AVP[rangeindex].Code, app.AVP[rangeindex].VendorID)] == app.AVP[rangeindex] &&
@@ -162,7 +156,7 @@ package dict
 //@   property C17
 //@   requires p != nil && !locked(&p.mu) && (oncedone(&p.once) ==> pinit(p) && pwf(p))
 //@   ensures lock_released: !locked(&p.mu)
-//@   ensures [C17 thorough] indexes_well_formed: oncedone(&p.once) ==> pinit(p) && pwf(p)
+//@   ensures [C17] indexes_well_formed: oncedone(&p.once) ==> pinit(p) && pwf(p)
 //@ end
 //@ # (NewParser itself is not under contract: that the mutex of a newly allocated Parser is unlocked and its Once has not
 //@ # fired - Go's zero values - is not something the ghost state of embedded fields can express yet)
